@@ -52,3 +52,55 @@ def L2_container(ctx, fi, an, total_text, rule='returned-normalised-to-total'):
                    'table stored into the returned container `%s` is exp of a value that is %s%s; required: normalised '
                    'by its own full logsumexp plus log(%s)' % (c, cls, (' to ' + total) if total else '', total_text))
     return n
+
+
+def lse_primitive(ctx, rel='src/mbi/factor.py', qual='Factor.logsumexp', rule='lse-primitive'):
+    """Log-sum-exp reductions of a factor must be the trusted, -inf-safe primitive scipy.special.logsumexp, or a
+    hand-written max-shifted reduction whose shift is sanitised against non-finite values: a slice that is entirely
+    -inf (a structurally impossible attribute value) must give -inf, not NaN."""
+    repo = ctx.repo
+    fi = repo.func(rel, qual)
+    mod = fi.module
+    todo, seen = [fi], set()
+    n = 0
+    while todo:
+        f = todo.pop()
+        if f.qualname in seen:
+            continue
+        seen.add(f.qualname)
+        ctx.analysed(f)
+        hand_rolled = []
+        for c in ast.walk(f.node):
+            if not isinstance(c, ast.Call):
+                continue
+            fn = c.func
+            d = mod.dotted(fn) if isinstance(fn, (ast.Name, ast.Attribute)) else None
+            if d and d.endswith('logsumexp'):
+                if d.startswith('scipy.'):
+                    n += 1
+                    ctx.ob(rule, f, c, True, 'reduction by scipy.special.logsumexp (shift-stable, returns -inf for all -inf input)')
+                elif isinstance(fn, ast.Name) and fn.id in mod.funcs and fn.id not in seen:
+                    todo.append(mod.funcs[fn.id])      # a local implementation: analyse it
+                elif isinstance(fn, ast.Attribute) and U(fn.value) != 'self':
+                    pass
+            if d and d.split('.')[-1] == 'exp' and d.startswith('numpy.') and c.args:
+                hand_rolled.append(c)
+        for c in hand_rolled:
+            n += 1
+            arg = c.args[0]
+            ok, why = False, 'exponential of an unshifted array inside a log-sum-exp reduction'
+            if isinstance(arg, ast.BinOp) and isinstance(arg.op, ast.Sub):
+                shift = arg.right
+                sname = U(shift)
+                # the shift must be sanitised: an isfinite/isinf/where/nan_to_num construct mentioning it before use
+                guards = [g for g in ast.walk(f.node) if isinstance(g, ast.Call) and
+                          U(g.func).split('.')[-1] in ('isfinite', 'isinf', 'isneginf', 'where', 'nan_to_num')
+                          and any(U(x) == sname for a in g.args for x in ast.walk(a))
+                          and getattr(g, 'lineno', 0) <= c.lineno]
+                ok = bool(guards)
+                why = ('max-shift `%s` %s sanitised against non-finite values before `%s`: a slice of all -inf gives '
+                       '(-inf) - (-inf) = NaN otherwise' % (sname, 'is' if ok else 'is NOT', U(c)[:50]))
+            ctx.ob(rule, f, c, ok, why)
+    if n == 0:
+        raise AnalysisError('%s: no log-sum-exp reduction found' % qual)
+    return n
